@@ -134,6 +134,10 @@ func runCase(p *drive.Program) *drive.Mismatch {
 				ev.R().Note("write error: " + err.Error())
 				return nil
 			}
+			if errors.Is(err, drive.ErrRetireRaced) {
+				ev.R().Count("cases_dropped_harness_retention_overlapped_rotation", 1)
+				return nil
+			}
 			panic(err)
 		}
 		if mm := r.CheckAll(i); mm != nil {
@@ -151,6 +155,7 @@ func runCase(p *drive.Program) *drive.Mismatch {
 		mm.Ctx = "final-reopen"
 		return mm
 	}
+	ev.R().Count("retire_rotated_again_after_overlapping_background_rotation", int(drive.RetireRepairs.Swap(0)))
 	ev.R().Count("quiesce_cap_hits", r.QuiesceMisses)
 	ev.R().Count("maintenance_errors", r.MaintErrors)
 	return nil
